@@ -5,17 +5,19 @@ full / partially consumed / mid-iteration-disturbed process_iter(attrs?), cache_
 on cached objects; object identity (`is`) is checked against a reference model of the cache.
 Two concurrent iterators run under the deterministic scheduler.
 """
+import re
+
 from vlib import harness
 
 ID = "C04"
 LEVEL = "exploration"
 ENGINE = "vkernel+sched"
-TECHNIQUE = "runtime monitor: cache reference model (object identity) over generated process-table histories; bounded-preemption schedules of two concurrent iterators"
+TECHNIQUE = "runtime monitor: cache reference model (object identity) over generated process-table histories; bounded-preemption schedules of two concurrent iterators; free-running iterator threads while a third thread changes the table"
 RULE = ("one case = a history over a simulated process table (pids + hidden thread ids) of table changes, pids(), pid_exists(n) "
         "for n in listed/thread-id/absent/{0,-1,-2**70,2**31-1,2**31,2**32+5,2**63,2**64,10**30}, process_iter() fully or partly "
         "consumed, with table changes applied between listing and visit, attrs=[...], cache_clear(), is_running() on cached "
         "objects. Part 2: two threads iterating at once (after a flagged reuse / during table changes), all <=2-pre-emption "
-        "schedules + sampled 3-4. non-trivial = history with an eviction, a flagged-reuse refresh, a cache_clear or a "
+        "schedules + sampled 3-4. Part 3: 2-3 free-running threads (1 us switch interval) iterate fully / with attrs / abandon half-way while another thread spawns, removes and recycles pids (logical clock = shared counter; a pid listed during the whole iteration must be yielded, a yielded pid must have been listed at some moment of it), then two quiescent iterations (identity, exact pid set); one deterministic probe-race case. non-trivial = history with an eviction, a flagged-reuse refresh, a cache_clear or a "
         "mid-iteration change, resp. schedule with >=2 context switches; distinct by history hash")
 ASSUMPTIONS = [
     "a cached entry may legitimately survive a pid that vanished and came back between two iterations (the cache only learns at listing instants or from is_running())",
@@ -359,6 +361,209 @@ def run_sched_case(case, acc, seen):
     acc.case(case, sch.context_switches() >= 2, viols, key=harness.chash(h), sample=dict(case, trace="".join(map(str, sch.trace))))
 
 
+# ---- part 3: free-running iterators while the table changes ----------------------------------------
+
+def run_threads_case(case, acc):
+    """2-3 real threads iterate process_iter() (some only partly, some with attrs) while another thread spawns, removes
+    and recycles processes; 1 us switch interval, so pre-emption happens anywhere. Logical clock = one shared counter."""
+    import itertools
+    import sys
+    import threading
+    import time
+    env = setup()
+    ps, H = env["ps"], env["H"]
+    w = H.World(ps)
+    clock = itertools.count(1)
+    oplog = []          # (a, b, op, pid)   a/b = clock before/after the change
+    iters = []          # dict(thread, c0, c2, pids, attrs)
+    partial = []        # abandoned iterations: only order / membership of the prefix is decided
+    errors = []
+    stable_base = [7, 8, 9]
+    pool = list(range(20, 20 + case["pool"]))
+    old = sys.getswitchinterval()
+    stop = threading.Event()
+
+    def mutator():
+        r = harness.rng_for(case["seed"], "c04tm", case["i"])
+        try:
+            for n in range(case["ops"]):
+                pid = r.choice(pool)
+                a = next(clock)
+                if pid in w.t.procs:
+                    w.t.remove(pid)
+                    kind = "remove"
+                    if r.random() < 0.4:
+                        b = next(clock)
+                        oplog.append((a, b, "remove", pid))
+                        a = next(clock)
+                        w.t.spawn(pid, 1000 + a, ppid=1, comm=b"re%d" % a)
+                        kind = "spawn"
+                else:
+                    w.t.spawn(pid, 1000 + a, ppid=1, comm=b"mu%d" % a)
+                    kind = "spawn"
+                oplog.append((a, next(clock), kind, pid))
+                time.sleep(0)           # hand the GIL over: every change lands at a different point of the iterations
+        except BaseException as e:  # noqa: BLE001
+            errors.append(("mutator", e))
+        finally:
+            stop.set()
+
+    def iterator(idx, attrs):
+        n = 0
+        while (not stop.is_set() or n < 3) and n <= case["ops"] * 4:
+            n += 1
+            c0 = next(clock)
+            try:
+                if idx == 2 and n % 2:
+                    # an iterator abandoned half-way (its cache update happens when the generator is closed)
+                    seq = []
+                    for p in ps.process_iter():
+                        seq.append(p.pid)
+                        if len(seq) >= 1 + n % 5:
+                            break
+                    partial.append(dict(thread=idx, c0=c0, c2=next(clock), pids=seq))
+                    continue
+                seq = [p.pid for p in ps.process_iter(attrs=attrs)]
+            except BaseException as e:  # noqa: BLE001
+                import traceback
+                e.tb_text = "".join(traceback.format_exception(e))[-1800:]
+                e.at_clock = next(clock)
+                errors.append((idx, e))
+                continue
+            iters.append(dict(thread=idx, c0=c0, c2=next(clock), pids=seq))
+
+    with w:
+        for pid in stable_base:
+            w.apply(("spawn", pid, False))
+        for pid in pool[::2]:
+            w.t.spawn(pid, 900 + pid, ppid=1, comm=b"init%d" % pid)
+        base_pids = sorted(w.t.procs)
+        first = {p.pid: p for p in ps.process_iter()}
+        nthreads = case["threads"]
+        ths = [threading.Thread(target=iterator, args=(i, None if i != 1 else ["name", "status"]), daemon=True) for i in range(nthreads)]
+        ths.append(threading.Thread(target=mutator, daemon=True))
+        sys.setswitchinterval(1e-6)
+        try:
+            for t in ths:
+                t.start()
+            for t in ths:
+                t.join(120)
+            hung = [t for t in ths if t.is_alive()]
+        finally:
+            sys.setswitchinterval(old)
+            stop.set()
+        # quiescent epilogue: identity across two sequential iterations, and exactly the listed pids
+        seq1 = list(ps.process_iter())
+        seq2 = list(ps.process_iter())
+        listed = sorted(w.t.procs)
+    viols = []
+    ctx = f"free-running iterators seed={case['seed']} i={case['i']}"
+    if hung:
+        acc.inconclusive = ctx + ": a thread did not finish within 120 s"
+    for who, e in errors:
+        mech = f"concurrent_iter_exception:{type(e).__name__}"
+        m = re.search(r"/vproc/(\d+)/", str(getattr(e, "filename", "") or ""))
+        if isinstance(e, FileNotFoundError) and m:
+            # ENOENT on /proc/<pid>/<file>, then wrap_exceptions probes /proc/<pid>/stat to tell "gone" from "file missing":
+            # if the pid was recycled between the two accesses the probe succeeds and the raw error is re-raised
+            pid = int(m.group(1))
+            ce = getattr(e, "at_clock", 0)
+            rms = [(a, b) for a, b, k, p2 in oplog if k == "remove" and p2 == pid and a <= ce]
+            if any(k == "spawn" and p2 == pid and any(b1 <= a2 for _a1, b1 in rms) and a2 <= ce for a2, _b2, k, p2 in oplog):
+                mech = "leak:FileNotFoundError:pid_recycled_between_failed_read_and_existence_probe"
+        viols.append((mech, f"{ctx} thread {who}: {e!r} {getattr(e, 'tb_text', '')}"))
+    # life spans per pid from the op log
+    spans = {pid: [(0, None)] for pid in base_pids}     # (start_done, end_started)
+    for a, b, kind, pid in sorted(oplog):
+        if kind == "spawn":
+            spans.setdefault(pid, []).append((a, None))     # may be visible from a on
+        else:
+            lst = spans.get(pid) or []
+            if lst and lst[-1][1] is None:
+                lst[-1] = (lst[-1][0], b)                   # may be visible until b
+    spawn_done = {}
+    for a, b, kind, pid in sorted(oplog):
+        if kind == "spawn":
+            spawn_done.setdefault(pid, []).append((a, b))
+    overl = 0
+    for it in iters:
+        acc.count("free_running_iterations_checked")
+        seq, c0, c2 = it["pids"], it["c0"], it["c2"]
+        if any(c0 <= b and a <= c2 for a, b, _k, _p in oplog):
+            overl += 1
+        if seq != sorted(seq) or len(set(seq)) != len(seq):
+            viols.append(("concurrent_iter_not_ascending_or_duplicates", f"{ctx} {it}"))
+        for pid in seq:
+            if not any(s <= c2 and (e is None or e >= c0) for s, e in spans.get(pid, [])):
+                viols.append(("concurrent_iter_unlisted_pid", f"{ctx} pid {pid} never listed during {it}"))
+        # listed for the whole iteration: spawned (completed) before it began, removal not begun before it ended
+        for pid, lst in spans.items():
+            for (s, e), in [((s, e),) for s, e in lst]:
+                done = 0 if s == 0 else next((b for a, b in spawn_done.get(pid, []) if a == s), s)
+                rm_start = None if e is None else next((a for a, b, k, p2 in oplog if k == "remove" and p2 == pid and b == e), e)
+                if done < c0 and (rm_start is None or rm_start > c2) and pid not in seq:
+                    viols.append(("concurrent_iter_omits_listed_pid", f"{ctx} pid {pid} listed throughout but missing in {it}"))
+    for it in partial:
+        acc.count("free_running_abandoned_iterations")
+        seq, c0, c2 = it["pids"], it["c0"], it["c2"]
+        if seq != sorted(seq) or len(set(seq)) != len(seq):
+            viols.append(("concurrent_iter_not_ascending_or_duplicates", f"{ctx} abandoned {it}"))
+        for pid in seq:
+            if not any(s_ <= c2 and (e_ is None or e_ >= c0) for s_, e_ in spans.get(pid, [])):
+                viols.append(("concurrent_iter_unlisted_pid", f"{ctx} pid {pid} never listed during abandoned {it}"))
+    acc.count("free_running_iterations_overlapping_table_changes", overl)
+    acc.count("free_running_table_changes", len(oplog))
+    if [p.pid for p in seq2] != listed:
+        viols.append(("process_iter_omits_listed_pid" if set(listed) - {p.pid for p in seq2} else "iter_wrong_after_concurrency",
+                      f"{ctx} after the threads stopped: got {[p.pid for p in seq2]} listed {listed}"))
+    ids1 = {p.pid: p for p in seq1}
+    for p in seq2:
+        if p.pid in ids1 and ids1[p.pid] is not p:
+            viols.append(("identity_not_preserved", f"{ctx} after the threads stopped: pid {p.pid} yielded as two objects by two successive iterations"))
+    acc.case(dict(kind="threads", **case), overl > 0, viols)
+
+
+def run_probe_race(acc):
+    """Deterministic form of what part 3 meets by chance: a listed process goes away just before one of its files is
+    opened (ENOENT) and its pid is taken by a new process before the next access - the existence probe of
+    /proc/<pid>/stat that wrap_exceptions uses to tell 'gone' from 'file missing'."""
+    env = setup()
+    ps, H = env["ps"], env["H"]
+    for attrs, victim_file in ((None, "stat"), (["name", "status"], "status"), (["cmdline"], "cmdline")):
+        w = H.World(ps)
+        viols = []
+        with w:
+            for pid in (7, 8, 9):
+                w.apply(("spawn", pid, False))
+            if attrs is not None:
+                list(ps.process_iter())          # pid 8 is cached: the iteration goes through as_dict() only
+            state = dict(armed=True, respawn_at=None)
+
+            def hook(vk, idx, kind, path):
+                if state["armed"] and kind == "open" and path == f"/vproc/8/{victim_file}":
+                    state["armed"] = False
+                    w.t.remove(8)
+                    state["respawn_at"] = idx + 1
+                elif state["respawn_at"] == idx:
+                    state["respawn_at"] = None
+                    w.t.spawn(8, 5000, ppid=1, comm=b"newcomer")
+            w.vk.on_access = hook
+            acc.count("probe_race_cases")
+            try:
+                seq = [p.pid for p in ps.process_iter(attrs=attrs)]
+            except Exception as e:  # noqa: BLE001
+                mech = f"iter_exception:{type(e).__name__}"
+                if isinstance(e, FileNotFoundError):
+                    mech = "leak:FileNotFoundError:pid_recycled_between_failed_read_and_existence_probe"
+                viols.append((mech, f"process_iter(attrs={attrs}) raised {e!r}: pid 8 removed at open of {victim_file}, recycled before the next access"))
+            else:
+                if seq != sorted(seq) or set(seq) - set(w.t.procs):
+                    viols.append(("iter_wrong", f"probe race: yielded {seq}"))
+            finally:
+                w.vk.on_access = None
+        acc.case(dict(kind="probe_race", attrs=attrs, file=victim_file), True, viols)
+
+
 def plan(tier, seed):
     shards = []
     n = 32000 if tier == "quick" else 600000
@@ -370,6 +575,8 @@ def plan(tier, seed):
         for part in range(sp):
             shards.append(dict(kind="sched_exh", scn=scn, bound=2, part=part, parts=sp))
         shards.append(dict(kind="sched_rand", scn=scn, seed=seed, count=800 if tier == "quick" else 40000))
+    for part in range(4 if tier == "quick" else 16):
+        shards.append(dict(kind="threads", seed=seed, part=part, count=5 if tier == "quick" else 60))
     return shards
 
 
@@ -408,6 +615,10 @@ def run_shard(shard):
     elif k == "fixed":
         for h in fixed_histories():
             run_history(h, acc)
+        run_probe_race(acc)
+    elif k == "threads":
+        for i in range(shard["count"]):
+            run_threads_case(dict(seed=shard["seed"], i=shard["part"] * 1000 + i, threads=2 + i % 2, ops=150, pool=8 + 4 * (i % 3)), acc)
     elif k == "sched_exh":
         sch, _ = run_schedule(shard["scn"], (), 0)
         total = sch.step
@@ -430,6 +641,10 @@ def run_shard(shard):
         for case in shard["cases"]:
             if "hist" in case:
                 run_history(case["hist"], acc)
+            elif case.get("kind") == "threads":
+                run_threads_case({k_: v for k_, v in case.items() if k_ != "kind"}, acc)
+            elif case.get("kind") == "probe_race":
+                run_probe_race(acc)
             else:
                 run_sched_case(case, acc, seen)
     return acc.result()
